@@ -651,7 +651,7 @@ func c17Cases(thorough bool) (out []c17Case) {
 	kinds := [][2]bool{{false, false}, {true, false}, {false, true}, {true, true}}
 	defer func() {
 		// Go package names that collide with identifiers the generated code uses, and multi-file requests
-		for _, tail := range []string{"http", "context", "errors", "strings", "connect", "connect_go", "pingv1connect"} {
+		for _, tail := range []string{"http", "context", "errors", "strings", "connect", "connect_go", "pingv1connect", "opts", "svc", "mux", "ctx", "req", "stream", "c", "baseurl", "client", "baseURL", "httpClient"} {
 			for _, form := range []int{0, 2} {
 				for _, imp := range []bool{false, true} {
 					k := c17Case{Package: "a.b.v1", GoPkgForm: form, Imported: imp, GoTail: tail, Services: []c17Service{{Name: "Svc", Methods: []c17Method{{Name: "Do"}, {Name: "Up", ClientStream: true}}}}}
